@@ -5,7 +5,7 @@
 # both      : FAILED/ERROR lines of the full suite identical to the clean tree's
 # Prints one line: <dir> OK|BAD <details>
 D="$1"; W="$2"
-BASE=/tmp/mut/baseline_fail.txt
+BASE=/verif/tools/baseline_fail.txt
 cd "$W" || exit 2
 git checkout -q -- .
 run() { PYTHONPATH="$W" timeout 900 /venv/bin/python -W ignore "$1" >/dev/null 2>&1; echo $?; }
